@@ -267,6 +267,8 @@ def bip341Committed (ht : UInt32) (idx : Nat) : Field → Bool
 def Ctx.wf (c : Ctx) : Prop :=
   c.tx.wf ∧ c.spent.length = c.tx.ins.length ∧ ∀ o ∈ c.spent, o.wf
 
+instance (c : Ctx) : Decidable c.wf := by unfold Ctx.wf; infer_instance
+
 /-- amount of the output spent by input `idx` -/
 def Ctx.amount (c : Ctx) (idx : Nat) : UInt64 := ((c.spent[idx]?).map (·.value)).getD 0
 
